@@ -340,6 +340,13 @@ def _absent_in_listing(repo: Repo, run: Run, interp) -> None:
     if gen_calls:
         raise AnalysisError(f"the line builder joins the columns produced by the generator {gen_calls[0].a[0].a[1]}(): how an id "
                             f"absent from the table is shown is not decided")
+    kept = [e_ for e_ in rec.effects if e_.kind in ("sub-store", "mut-call") and e_.func.endswith(fk.name)
+            and sym.root_of(e_.path if e_.path is not None else e_.base) != table]
+    if kept:
+        # the columns are kept in a table the builder fills itself (a cache handed in, an attribute): whether what comes back
+        # from it is the column of THIS table is not read off the return term
+        raise AnalysisError(f"the line builder keeps columns in {sym.pretty(kept[0].path if kept[0].path is not None else kept[0].base)[:50]} "
+                            f"(line {kept[0].lineno}): how an id absent from the table is shown is not decided")
     eid = T("attr", (ev, "eventid"))
     cond = T("cmp", ("in", eid, table))
     hexid = T("call", (T("builtin", ("hex",)), (eid,), ()))
